@@ -223,6 +223,71 @@ impl RelayTransport {
     }
 }
 
+/// Verification hook (C17): crate-visible access to the receive path without the actor.
+#[cfg(feature = "verif-hooks")]
+impl RelayTransport {
+    /// A transport whose receive queue is fed by the returned closure
+    /// (`Some(item)`: `try_send` it, `None`: drop the sender); no actor is running.
+    /// Must be called inside a tokio runtime (a no-op task stands in for the actor).
+    #[allow(clippy::type_complexity)]
+    pub(crate) fn verif_without_actor(
+        capacity: usize,
+    ) -> (
+        Self,
+        Box<dyn FnMut(Option<(RelayUrl, EndpointId, Datagrams)>) -> bool + Send>,
+    ) {
+        let (relay_datagram_send_channel, _) = mpsc::channel(1);
+        let (tx, relay_datagram_recv_queue) = mpsc::channel(capacity);
+        let (actor_sender, _) = mpsc::channel(1);
+        let mut tx = Some(tx);
+        let feed = Box::new(
+            move |item: Option<(RelayUrl, EndpointId, Datagrams)>| match item {
+                Some((url, src, datagrams)) => tx.as_ref().is_some_and(|tx| {
+                    tx.try_send(RelayRecvDatagram {
+                        url,
+                        src,
+                        datagrams,
+                    })
+                    .is_ok()
+                }),
+                None => tx.take().is_some(),
+            },
+        );
+        let this = Self {
+            relay_datagram_recv_queue,
+            relay_datagram_send_channel,
+            pending_item: None,
+            actor_sender,
+            _actor_handle: AbortOnDropHandle::new(task::spawn(async {})),
+            my_relay: HomeRelayWatch::default(),
+            my_endpoint_id: iroh_base::SecretKey::from_bytes(&[17u8; 32]).public(),
+        };
+        (this, feed)
+    }
+
+    /// Calls the real [`Self::poll_recv`].
+    pub(crate) fn verif_poll_recv(
+        &mut self,
+        cx: &mut Context,
+        bufs: &mut [io::IoSliceMut<'_>],
+        metas: &mut [noq_udp::RecvMeta],
+        recv_infos: &mut [RecvInfo],
+    ) -> Poll<io::Result<usize>> {
+        self.poll_recv(cx, bufs, metas, recv_infos)
+    }
+
+    /// `(url, segment size, contents length)` of the pending item.
+    pub(crate) fn verif_pending_item(&self) -> Option<(RelayUrl, Option<u16>, usize)> {
+        self.pending_item.as_ref().map(|p| {
+            (
+                p.url.clone(),
+                p.datagrams.segment_size.map(u16::from),
+                p.datagrams.contents.len(),
+            )
+        })
+    }
+}
+
 #[derive(Debug)]
 pub(super) struct RelayNetworkChangeSender {
     sender: mpsc::Sender<RelayActorMessage>,
